@@ -86,6 +86,10 @@ func c17Preds() []c17Pred {
 	out = append(out, c17Pred{base[0].SQL + " AND " + base[5].SQL + " OR " + base[2].SQL, func(vs []ref.Val) bool {
 		return base[0].Eval(vs) && base[5].Eval(vs) || base[2].Eval(vs)
 	}})
+	// ... and with OR first: A OR (B AND C)
+	out = append(out, c17Pred{base[6].SQL + " OR " + base[2].SQL + " AND " + base[4].SQL, func(vs []ref.Val) bool {
+		return base[6].Eval(vs) || base[2].Eval(vs) && base[4].Eval(vs)
+	}})
 	return out
 }
 
